@@ -1066,7 +1066,7 @@ func (h *c08Hist) janitor(cc *c08Ctrl) {
 
 // ---- history kind 1: timing / scope / refresh / clone ---------------------------------
 
-var c08Qtypes = []uint16{dnsmessage.TypeA, dnsmessage.TypeAAAA, dnsmessage.TypeTXT}
+var c08Qtypes = []uint16{dnsmessage.TypeA, dnsmessage.TypeAAAA, dnsmessage.TypeTXT, dnsmessage.TypeCAA} // CAA = 257: equal to A modulo 256
 
 func (h *c08Hist) offsets(g *c08Gen) []time.Duration {
 	w, unlimited := h.cfg.window()
